@@ -499,6 +499,30 @@ func c13Scenarios(disk bool) []*schedScenario {
 			return "at-rest:" + x.W[0].Lookup(c.L1, world.Chain(c.L1, c.p.CA, c.p.Root)).String()
 		},
 	})
+	// s17: a refresh of a list in force while a handshake sees another distribution point for the first time and fails
+	// to load it (the origin serves no CRL): whatever the failed load tidies up, the refresh of the other list completes -
+	// at rest the first list is in force in its new version
+	scs = append(scs, &schedScenario{Name: name("s17-refresh-vs-failing-first-load-of-another-list"),
+		Setup: func(x *schedCtx) {
+			w := c.mkWorld(x, base)
+			w.Net.Serve(urlA, "v1", c.v1)
+			w.Lookup(c.L1, world.Chain(c.L1, c.p.CA, c.p.Root))
+			w.Net.Serve(urlA, "v2", c.v2)
+			w.Net.Serve(urlB, "no-crl", []byte("<html>this is not a CRL</html>"))
+		},
+		Ops: []schedOp{refreshOp(0), c.hs(0, c.L3)},
+		Post: func(x *schedCtx) string {
+			vsched.Drain()
+			w := x.W[0]
+			return "at-rest:101=" + w.Lookup(c.L1, world.Chain(c.L1, c.p.CA, c.p.Root)).String() + " 102=" + w.Lookup(c.L2, world.Chain(c.L2, c.p.CA, c.p.Root)).String()
+		},
+		Judge: func(obs []string) (string, string) {
+			if last := obs[len(obs)-1]; last != "at-rest:101=REVOKED 102=REVOKED" {
+				return "C13|refresh-lost|failing-first-load-of-another-list", "a refresh ran while the first load of another distribution point failed; afterwards " + last + " (the refreshed list names 101 and 102)"
+			}
+			return "", ""
+		},
+	})
 	// s9: two validator instances refreshing concurrently + a handshake
 	scs = append(scs, &schedScenario{Name: name("s9-two-instances"),
 		Setup: func(x *schedCtx) {
